@@ -59,7 +59,7 @@ Fixpoint fcgi_stdin_loop_c (fuel : nat) (rid : N) (need : nat) (acc : bytes) (c 
                 | x =>
                     if Nat.leb (length x) need
                     then fcgi_stdin_loop_c f rid (need - length x) (acc ++ x) c'
-                    else Some None
+                    else fcgi_stdin_loop_c f rid 0 (acc ++ firstn need x) c'
                 end
             end
       end
